@@ -475,7 +475,7 @@ Theorem validate_flat body :
   forallb flat_node body = true ->
   (validate body = Ok tt <-> parts (write_body body) = merge_texts (body_parts body)).
 Proof.
-  intros Hf. unfold validate. rewrite (validate_loop_flat body 0 [body] Hf). cbn [bind forallb].
+  intros Hf. unfold validate. rewrite (validate_loop_flat body 0 [body] Hf). cbn [bind forallb empty_plural_case].
   rewrite Bool.andb_true_r. destruct (reads_back body) eqn:E.
   - apply reads_back_iff in E. tauto.
   - split; [discriminate|]. intros H. assert (reads_back body = true) by (apply reads_back_iff; tauto). congruence.
@@ -490,12 +490,16 @@ Qed.
 (* a PO plural: one {case 1} and {default} *)
 Theorem validate_plural p vn pv pc cb dflt :
   validate [NMsgPlural p vn pv [NMsgPluralCase pc 1%Z cb] dflt] = Ok tt <->
+  (write_body cb <> [] /\ write_body dflt <> []) /\
   (forallb flat_node cb = true /\ parts (write_body cb) = merge_texts (body_parts cb)) /\
   (forallb flat_node dflt = true /\ parts (write_body dflt) = merge_texts (body_parts dflt)).
 Proof.
-  unfold validate. cbn [validate_loop bind forallb]. rewrite Bool.andb_true_r.
-  destruct (reads_back cb) eqn:E1, (reads_back dflt) eqn:E2; cbn [andb];
-    rewrite <- !reads_back_iff, E1, E2; split; try tauto; try discriminate; intros [? ?]; discriminate.
+  unfold validate. cbn [validate_loop bind forallb empty_plural_case]. rewrite Bool.andb_true_r.
+  rewrite <- !reads_back_iff.
+  destruct (write_body cb) eqn:Ec; [split; [discriminate | intros [[H _] _]; congruence]|].
+  destruct (write_body dflt) eqn:Ed; [split; [discriminate | intros [[_ H] _]; congruence]|].
+  destruct (reads_back cb), (reads_back dflt); cbn [andb]; split; try discriminate;
+    try (intros [_ [? ?]]; discriminate); intros _; repeat split; discriminate.
 Qed.
 
 Lemma msgid_plural_case p vn pv pc cv cb dflt r :
